@@ -58,6 +58,18 @@ def _verif_compress(I, st, args):
     return Str(container(bytes(ext), data))
 
 
+@model('pault.ag/go/debian/deb.verifCompressSplit')
+def _verif_compress_split(I, st, args):
+    ext, data, cut = args
+    if not concrete_str(ext) or not isinstance(cut, int):
+        raise Unsupported('symbolic compression extension or cut in the harness')
+    if bytes(ext) != b'.gz' or cut <= 0 or cut >= len(data):
+        return Str(container(bytes(ext), data))
+    # two gzip members: 01 'Y' ext 00 len4 data ; a reader in multistream mode (the default) delivers all of data,
+    # one with Multistream(false) stops after the first len4 bytes
+    return Str((1, ord('Y')) + tuple(bytes(ext)) + (0,) + tuple(b'%04d' % cut) + tuple(data))
+
+
 @model('pault.ag/go/debian/deb.verifTar')
 def _verif_tar(I, st, args):
     names = I.slice_cells(st, args[0])
@@ -79,6 +91,17 @@ def open_codec(I, st, ext, src, wrap):
         tag = (1, ord('Z')) + tuple(ext) + (0,)
         if len(data) < len(tag):
             outs.extend(I.resolve(st2, wrap(st2, None, 'not a %s stream' % ext.decode())))
+            continue
+        tag2 = (1, ord('Y')) + tuple(ext) + (0,)
+        if match_at(data, 0, tag2) is True and len(data) >= len(tag2) + 4 and not any(is_sym(b) for b in data[len(tag2):len(tag2) + 4]):
+            first = int(bytes(data[len(tag2):len(tag2) + 4]))
+            payload = data[len(tag2) + 4:]
+            for o in I.resolve(st2, wrap(st2, payload, None)):
+                if o.kind == 'ret' and isinstance(o.val, Tup) and isinstance(o.val[0], Ptr):
+                    g = dict(o.st.aux.get('gz_first', {}))
+                    g[o.val[0].obj] = first
+                    o.st.aux['gz_first'] = g
+                outs.append(o)
             continue
         c = match_at(data, 0, tag)
         payload = data[len(tag):]
@@ -102,6 +125,19 @@ def _gzip_newreader(I, st, args):
 
 for _m in ('Read', 'Close'):
     MODELS['(*compress/gzip.Reader).' + _m] = (lambda m: (lambda I, st, args: mem_read(I, st, args[0], args[1]) if m == 'Read' else None))(_m)
+
+
+@model('(*compress/gzip.Reader).Multistream')
+def _gzip_multistream(I, st, args):
+    r, ok = args
+    if not isinstance(ok, bool):
+        raise Unsupported('symbolic Multistream argument')
+    first = st.aux.get('gz_first', {}).get(r.obj)
+    if not ok and first is not None:
+        _, data, pos, err = st.heap[r.obj]
+        if pos <= first:
+            st.heap[r.obj] = ('memreader', Str(data[:first]), pos, err)
+    return None
 
 
 @model('github.com/xi2/xz.NewReader')
